@@ -23,7 +23,7 @@ START_SUBST = {
     "DynStrategyAdapter": "Stra", "DynAuthenticationAdapter": "Auth", "DynLocalizationAdapter": "Loca",
 }
 START_RULES = ["deasync", "attrs", "log", "spawn_drop", "opt_map", "closure_wild", "generics", "try_desugar"]
-LISTEN_RULES = ["deasync", "attrs", "log", "select", "generics", "try_desugar"]
+LISTEN_RULES = ["deasync", "attrs", "log", "select_poll", "generics", "try_desugar"]
 CFG_STRUCTS = ["Config", "RateLimiter", "ProxyProtocol", "Adapters"]
 
 
